@@ -152,7 +152,8 @@ type World struct {
 	liveProbe        int
 	colProbe         int
 	sharedSentinel   error
-	simItems         []*simBase // mutable items created so far
+	simItems         []*simBase    // mutable items created so far
+	Template         *tabular.Cell // a cell value prepared outside (shared BY VALUE between tables)
 
 	// callbacks (C13)
 	regs         []*SimCallback
@@ -232,6 +233,20 @@ func coreOf(t tabular.Table) *tabular.ATable {
 }
 
 func (w *World) probe(name string) { w.Probes[name]++ }
+
+type tmplKey struct{ n int }
+
+var tmplKeys = []interface{}{tmplKey{1}, tmplKey{2}, tmplKey{3}}
+
+// NewTemplateCell builds a cell value with three properties, rendered-like
+// (several links in its chain).  Copies of it go into tables of different tasks.
+func NewTemplateCell() *tabular.Cell {
+	c := tabular.NewCell("tmpl")
+	for i, k := range tmplKeys {
+		c.SetProperty(k, 100+i)
+	}
+	return &c
+}
 
 // bindPending learns the *Row of a row the table created internally (it is the
 // last entry of AllRows() as soon as the table has appended it).
@@ -450,6 +465,32 @@ func (w *World) Do(st *Step) bool {
 			w.Do(&sub)
 		}
 		w.probe("bulk_rows")
+	case "addTemplate":
+		// the caller adds (a copy of) a cell value prepared elsewhere, with properties
+		if w.Template == nil {
+			return true
+		}
+		i := pick(len(w.handles), st.A)
+		if i < 0 {
+			return true
+		}
+		h := w.handles[len(w.handles)-1-i]
+		if h.real == nil {
+			return true
+		}
+		w.nextItem++
+		mc := &mCell{itemID: w.nextItem, item: w.Template.Item()}
+		w.itemCell[mc.itemID] = mc
+		w.expectRowAdd(h, mc)
+		h.real.Add(*w.Template)
+		h.cells = append(h.cells, mc)
+		if h.attached {
+			w.syncColumns()
+		}
+		if p := w.addrPtr(mc); p != nil && st.B != 0 {
+			p.SetProperty(tmplKeys[pick(len(tmplKeys), st.B)], st.B) // re-set a key the template came with
+		}
+		w.probe("template_cell_added_by_value")
 	case "mutate":
 		// the caller changes an item after storing it and does NOT call Update
 		i := pick(len(w.simItems), st.A)
